@@ -103,6 +103,14 @@ def bytes_(s: Any, encoding: str = 'utf-8', errors: str = 'strict') -> Any:
     return s
 
 
+def _set_content_length(headers: Dict[bytes, bytes], value: bytes) -> None:
+    """Sets the Content-Length field, replacing any differently
+    cased spelling of it so that the field is never sent twice."""
+    for k in [k for k in headers if k.lower() == b'content-length']:
+        del headers[k]
+    headers[b'Content-Length'] = value
+
+
 def build_http_request(
     method: bytes, url: bytes,
     protocol_version: bytes = HTTP_1_1,
@@ -124,7 +132,7 @@ def build_http_request(
         elif k.lower() == b'user-agent':
             has_user_agent = True
     if body and not has_transfer_encoding:
-        headers[b'Content-Length'] = bytes_(len(body))
+        _set_content_length(headers, bytes_(len(body)))
     if not has_user_agent and not no_ua:
         headers[b'User-Agent'] = PROXY_AGENT_HEADER_VALUE
     return build_http_pkt(
@@ -155,7 +163,7 @@ def build_http_response(
             has_transfer_encoding = True
             break
     if not has_transfer_encoding and not no_cl:
-        headers[b'Content-Length'] = bytes_(len(body)) if body else b'0'
+        _set_content_length(headers, bytes_(len(body)) if body else b'0')
     return build_http_pkt(line, headers, body, conn_close)
 
 
